@@ -5,6 +5,7 @@ from __future__ import annotations
 from .. import terms as tm
 from ..model import AnalysisError
 from .common import ob, need, call_name, resolve_ite_free, role_of, roles
+from . import common
 from .. import symeval
 
 PROP = "C05"
@@ -380,6 +381,7 @@ def rule_framecount(ctx):
 
 
 RULES = [
+    ("C05.DTYPEFLOW", 3, common.rule_dtypeflow("C05.DTYPEFLOW")),
     ("C05.FRAMECOUNT", 8, rule_framecount),
     ("C05.EDGEPRED", 20, rule_edgepred),
     ("C05.MATCHSRC", 10, rule_matchsrc),
